@@ -128,7 +128,7 @@ func URLToString(URL *url.URL) string {
 		// Do nothing. We don't want to encode the URL for signature purposes. :(
 		break
 	default:
-		URL.RawQuery = encodeQuery(URL.Query())
+		URL.RawQuery = encodeQuery(URL.RawQuery)
 	}
 
 	URL.Host, err = idna.ToASCII(URL.Host)
@@ -153,31 +153,42 @@ func URLToString(URL *url.URL) string {
 	return URL.String()
 }
 
-// Encode encodes the values into “URL encoded” form
+// encodeQuery re-encodes a raw query string into “URL encoded” form, keeping the
+// parameters in the order (and multiplicity) in which they appear.
 // from: https://cs.opensource.google/go/go/+/refs/tags/go1.23.1:src/net/url/url.go;l=1002
-// REASON: it has been modified to not sort
-func encodeQuery(v url.Values) string {
-	if len(v) == 0 {
-		return ""
-	}
-
+// REASON: it has been modified to not sort; it works on the raw query because
+// url.Values is a map and iterating over it yields a random order.
+func encodeQuery(rawQuery string) string {
 	var buf strings.Builder
 
-	first := true
+	for rawQuery != "" {
+		var pair string
+		pair, rawQuery, _ = strings.Cut(rawQuery, "&")
 
-	for k, vs := range v {
-		keyEscaped := url.QueryEscape(k)
-		for _, v := range vs {
-			if !first {
-				buf.WriteByte('&')
-			}
-
-			first = false
-
-			buf.WriteString(keyEscaped)
-			buf.WriteByte('=')
-			buf.WriteString(url.QueryEscape(v))
+		// Same as url.ParseQuery: skip empty and invalid pairs
+		if pair == "" || strings.Contains(pair, ";") {
+			continue
 		}
+
+		k, v, _ := strings.Cut(pair, "=")
+
+		k, err := url.QueryUnescape(k)
+		if err != nil {
+			continue
+		}
+
+		v, err = url.QueryUnescape(v)
+		if err != nil {
+			continue
+		}
+
+		if buf.Len() > 0 {
+			buf.WriteByte('&')
+		}
+
+		buf.WriteString(url.QueryEscape(k))
+		buf.WriteByte('=')
+		buf.WriteString(url.QueryEscape(v))
 	}
 
 	return buf.String()
